@@ -1561,4 +1561,239 @@ theorem client_view (promptLen : Nat) (f : St) :
   · rw [clientReason_contents]
     cases f.done <;> simp [clientReason]
 
+
+/-! ## K. arbitrary non-empty stops (any bytes, not only valid UTF-8)
+
+`step_main` / `run_main` once more with the hypothesis on the stops weakened from `StopsOk` (non-empty and valid UTF-8) to
+`StopsNe` (non-empty): the only place where validity of the stop was used is the final flush at a stop — the text before
+a stop that is valid UTF-8 is valid, so nothing is trimmed.  For a stop of arbitrary bytes (it may begin or end inside a
+character) the flush trims: the streamed text is `trimValid` of the text before the stop's first occurrence. -/
+
+def StopsNe (stops : List Bytes) : Prop := ∀ t ∈ stops, t ≠ []
+
+/-- `Post` with the stop clause for arbitrary non-empty stops -/
+def PostG (pinned : Bool) (stops : List Bytes) (f : St) : Prop :=
+  match f.cause with
+  | none => Inv stops f
+  | some (.stopString s) =>
+      f.done = some .stop ∧ s ∈ stops ∧ (pinned = true → findStop f.genText stops = some s) ∧
+      (∃ idx, indexOf s f.genText = some idx ∧ f.outText = trimValid (f.genText.take idx) ∧
+        (pinned = false → ∀ t ∈ stops, ∀ j, indexOf t f.genText = some j → idx ≤ j)) ∧
+      (∀ t ∈ stops, ¬ Occurs t f.gen.dropLast.flatten) ∧ f.pending = []
+  | some .eos =>
+      f.done = some .stop ∧ f.outText = trimValid f.genText ∧ (∀ t ∈ stops, ¬ Occurs t f.genText) ∧
+      f.pending = []
+  | some .limit =>
+      f.done = some .length ∧ f.outText = trimValid f.genText ∧ (∀ t ∈ stops, ¬ Occurs t f.genText) ∧
+      f.pending = []
+
+theorem inv_initG (stops : List Bytes) (h : StopsNe stops) : Inv stops init := by
+  refine ⟨rfl, rfl, rfl, by decide, ?_, ?_⟩
+  · intro t ht ⟨a, b, hab⟩
+    have : t = [] := by
+      have := congrArg List.length hab
+      simp [init, St.genText] at this
+      exact List.eq_nil_of_length_eq_zero (by omega)
+    exact h t ht this
+  · intro t ht i h1 hi hs
+    have := hs.length_le
+    rw [List.length_take] at this
+    have h0 : init.genText.length = 0 := rfl
+    omega
+
+theorem step_mainG (pinned : Bool) {stops : List Bytes} (_hne : StopsNe stops) {st : St} (p : Bytes)
+    (hi : Inv stops st) (hvp : ValidPrefix (st.genText ++ p)) :
+    let st' := stepPiece pinned stops st p
+    (st'.done.isSome = true → PostG pinned stops st') ∧ (st'.done.isSome = false → Inv stops st') := by
+  intro st'
+  have hsplit : st.gen.flatten = st.out.flatten ++ st.pending.flatten := hi.split
+  have hov : validUtf8 st.out.flatten = true := hi.outValid
+  have hgen' : (st.push p).gen.flatten = st.out.flatten ++ ((st.pending ++ [p]).flatten) := by
+    show (st.gen ++ [p]).flatten = _
+    simp [List.flatten_append, hsplit, List.append_assoc]
+  have hseq : (st.pending ++ [p]).flatten = st.pending.flatten ++ p := by simp
+  have hvp' : ValidPrefix (st.out.flatten ++ (st.pending.flatten ++ p)) := by
+    have : st.genText ++ p = st.out.flatten ++ (st.pending.flatten ++ p) := by
+      show st.gen.flatten ++ p = _
+      rw [hsplit, List.append_assoc]
+    rw [← this]; exact hvp
+  have hvseq : ValidPrefix (st.pending.flatten ++ p) := ValidPrefix.right hov hvp'
+  -- an occurrence of a stop in the new text lies in the pending part
+  have hocc : ∀ t ∈ stops, ∀ a b, (st.out.flatten ++ st.pending.flatten) ++ p = a ++ t ++ b →
+      ∃ z, a = st.out.flatten ++ z ∧ st.pending.flatten ++ p = z ++ t ++ b := by
+    intro t ht a b h
+    have hno : ¬ Occurs t (st.out.flatten ++ st.pending.flatten) := by
+      rw [← hsplit]; exact hi.noOcc t ht
+    have hheld : Held stops (st.out.flatten ++ st.pending.flatten) st.pending.flatten.length := by
+      rw [← hsplit]; exact hi.held
+    exact occurrence_in_pending ht hno hheld h
+  rcases stepPiece_cases pinned stops st p with ⟨s, hs, h⟩ | ⟨hnone, _, h⟩ | ⟨hnone, hsuf, hinc, h⟩
+  · -- a stop was found
+    have hst' : st' = _ := h
+    rw [hst']
+    refine ⟨fun _ => ?_, fun hd => by simp at hd⟩
+    obtain ⟨hsmem, hsocc⟩ := findStopV_some hs
+    change Occurs s (st.pending ++ [p]).flatten at hsocc
+    change findStopV pinned (st.pending ++ [p]).flatten stops = some s at hs
+    rw [hseq] at hsocc hs
+    obtain ⟨idx, hidx⟩ := hsocc.indexOf
+    obtain ⟨⟨a, b, hab, halen⟩, hmin⟩ := indexOf_spec s _ idx hidx
+    have htake : (st.pending.flatten ++ p).take idx = a := by
+      rw [hab, ← halen]; simp [List.append_assoc]
+    -- the output
+    have hout : (({ st.push p with pending := (truncateStop (st.push p).pending s).1 }).finish
+        .stop (.stopString s)).out.flatten = st.out.flatten ++ trimValid a := by
+      rw [finish_out, flush_out]
+      show st.out.flatten ++ flushText (truncateStop (st.pending ++ [p]) s).1 = _
+      have hidx' : indexOf s (st.pending ++ [p]).flatten = some idx := by rw [hseq]; exact hidx
+      rw [flushText, truncateStop_flatten hidx', hseq, htake]
+    have hgenf : (({ st.push p with pending := (truncateStop (st.push p).pending s).1 }).finish
+        .stop (.stopString s)).gen.flatten = st.out.flatten ++ (st.pending.flatten ++ p) := by
+      rw [finish_gen]; show (st.push p).gen.flatten = _; rw [hgen', hseq]
+    have hG : st.out.flatten ++ (st.pending.flatten ++ p) = (st.out.flatten ++ a) ++ s ++ b := by
+      rw [hab]; simp [List.append_assoc]
+    show PostG pinned stops _
+    unfold PostG
+    simp only [finish_cause, finish_done, finish_pending, St.genText, St.outText, true_and, and_true]
+    rw [hgenf, hout]
+    refine ⟨hsmem, ?_, ?_, ?_⟩
+    · intro hp
+      subst hp
+      have hs : findStop (st.pending.flatten ++ p) stops = some s := hs
+      rw [← hs]
+      apply findStop_congr
+      intro t ht
+      constructor
+      · rintro ⟨a', b', h'⟩
+        have h'' : (st.out.flatten ++ st.pending.flatten) ++ p = a' ++ t ++ b' := by
+          rw [List.append_assoc]; exact h'
+        obtain ⟨z, _, hz⟩ := hocc t ht a' b' h''
+        exact ⟨z, b', hz⟩
+      · exact Occurs.append_left _
+    · have hOcc : Occurs s (st.out.flatten ++ (st.pending.flatten ++ p)) := ⟨_, _, hG⟩
+      obtain ⟨j, hj⟩ := hOcc.indexOf
+      obtain ⟨⟨a', b', hab', halen'⟩, hmin'⟩ := indexOf_spec s _ j hj
+      have h'' : (st.out.flatten ++ st.pending.flatten) ++ p = a' ++ s ++ b' := by
+        rw [List.append_assoc]; exact hab'
+      obtain ⟨z, hz1, hz2⟩ := hocc s hsmem a' b' h''
+      have h1 := hmin z b' hz2
+      have h2 := hmin' _ _ hG
+      have hjeq : j = st.out.flatten.length + idx := by
+        rw [← halen', hz1] at *
+        simp at h2 ⊢
+        omega
+      refine ⟨j, hj, ?_, ?_⟩
+      · have htk : List.take j (st.out.flatten ++ (st.pending.flatten ++ p)) = st.out.flatten ++ a := by
+          rw [hjeq, hG, ← halen]
+          have hl : (st.out.flatten ++ a).length = st.out.flatten.length + a.length := List.length_append
+          rw [List.append_assoc (st.out.flatten ++ a) s b, ← hl, List.take_left]
+        rw [htk, trimValid_append_valid hov]
+      · intro hp t ht jt hjt
+        subst hp
+        have hs : findStopEarliest (st.pending.flatten ++ p) stops = some s := hs
+        obtain ⟨_, i0, hi0, hmin0⟩ := findStopEarliest_spec hs
+        have hi0' : i0 = idx := by rw [hidx] at hi0; cases hi0; rfl
+        subst hi0'
+        obtain ⟨⟨at', bt', habt, halent⟩, _⟩ := indexOf_spec t _ jt hjt
+        have h3 : (st.out.flatten ++ st.pending.flatten) ++ p = at' ++ t ++ bt' := by
+          rw [List.append_assoc]; exact habt
+        obtain ⟨zt, hzt1, hzt2⟩ := hocc t ht at' bt' h3
+        have hoc : Occurs t (st.pending.flatten ++ p) := ⟨zt, bt', hzt2⟩
+        obtain ⟨k, hk⟩ := hoc.indexOf
+        have hk1 := hmin0 t ht k hk
+        have hk2 := (indexOf_spec t _ k hk).2 zt bt' hzt2
+        rw [hjeq, ← halent, hzt1]
+        simp only [List.length_append]
+        omega
+    · intro t ht
+      rw [finish_gen]
+      show ¬ Occurs t ((st.push p).gen.dropLast.flatten)
+      have : (st.push p).gen.dropLast = st.gen := by
+        show (st.gen ++ [p]).dropLast = st.gen
+        simp
+      rw [this]; exact hi.noOcc t ht
+  · -- held back (stop suffix or incomplete character)
+    have hst' : st' = st.push p := h
+    rw [hst']
+    refine ⟨fun hd => ?_, fun _ => ?_⟩
+    · have : (st.push p).done = none := hi.done
+      rw [this] at hd; cases hd
+    · change findStopV pinned (st.pending ++ [p]).flatten stops = none at hnone
+      refine ⟨hi.done, hi.cause, hgen', hov, ?_, ?_⟩
+      · intro t ht ⟨a, b, hab⟩
+        have hab' : (st.push p).gen.flatten = a ++ t ++ b := hab
+        rw [hgen', hseq, ← List.append_assoc] at hab'
+        obtain ⟨z, _, hz⟩ := hocc t ht a b hab'
+        exact findStopV_none hnone t ht ⟨z, b, by rw [hseq]; exact hz⟩
+      · show Held stops (st.push p).gen.flatten (st.pending ++ [p]).flatten.length
+        rw [hgen', hseq, ← List.append_assoc, List.length_append, ← hsplit]
+        exact hi.held.append p
+  · -- flushed
+    have hst' : st' = (st.push p).flush := h
+    rw [hst']
+    change findStopV pinned (st.pending ++ [p]).flatten stops = none at hnone
+    change containsStopSuffix (st.pending ++ [p]).flatten stops = false at hsuf
+    change incompleteUnicode (st.pending ++ [p]).flatten = false at hinc
+    have hvalid : validUtf8 (st.pending ++ [p]).flatten = true := by
+      apply valid_of_not_incomplete _ hinc
+      rw [hseq]; exact hvseq
+    have hd : (st.push p).flush.done = none := by rw [flush_done]; exact hi.done
+    refine ⟨fun h => (by rw [hd] at h; cases h), fun _ => ?_⟩
+    have hout : (st.push p).flush.out.flatten = st.out.flatten ++ (st.pending ++ [p]).flatten := by
+      rw [flush_out]
+      show st.out.flatten ++ flushText (st.pending ++ [p]) = _
+      rw [flushText, trimValid_of_valid hvalid]
+    refine ⟨hd, by rw [flush_cause]; exact hi.cause, ?_, ?_, ?_, ?_⟩
+    · show (st.push p).flush.gen.flatten = (st.push p).flush.out.flatten ++ (st.push p).flush.pending.flatten
+      rw [flush_gen, flush_pending, hout, hgen']; simp
+    · show validUtf8 (st.push p).flush.out.flatten = true
+      rw [hout]; exact validUtf8_append hov hvalid
+    · intro t ht ⟨a, b, hab⟩
+      have hab' : (st.push p).flush.gen.flatten = a ++ t ++ b := hab
+      rw [flush_gen, hgen', hseq, ← List.append_assoc] at hab'
+      obtain ⟨z, _, hz⟩ := hocc t ht a b hab'
+      exact findStopV_none hnone t ht ⟨z, b, by rw [hseq]; exact hz⟩
+    · show Held stops (st.push p).flush.gen.flatten (st.push p).flush.pending.flatten.length
+      rw [flush_gen, flush_pending, hgen']
+      intro t ht i h1 hile hs
+      exfalso
+      have hheld : Held stops ((st.out.flatten ++ st.pending.flatten) ++ p)
+          (st.pending.flatten.length + p.length) := by
+        rw [← hsplit]; exact hi.held.append p
+      rw [hseq, ← List.append_assoc] at hs
+      have hle := hheld t ht i h1 hile hs
+      have hs' : t.take i <:+ st.out.flatten ++ (st.pending.flatten ++ p) := by
+        rw [← List.append_assoc]; exact hs
+      have := suffix_of_append_short hs' (by rw [List.length_take, List.length_append]; omega)
+      exact stopSuffix_false hsuf t ht i h1 hile (by rw [hseq]; exact this)
+
+theorem run_mainG (pinned : Bool) {stops : List Bytes} (hne : StopsNe stops) (limit : Int) (evs : List Ev) :
+    ValidPrefix (run pinned limit stops init evs).genText →
+      PostG pinned stops (run pinned limit stops init evs) := by
+  refine run_ind (pinned := pinned) (limit := limit) (stops := stops)
+    (Inv := fun st => ValidPrefix st.genText → Inv stops st)
+    (Post := fun f => ValidPrefix f.genText → PostG pinned stops f) ?_ ?_ ?_ ?_ ?_ evs init
+    (fun _ => inv_initG stops hne)
+  · intro st hi _ hvp
+    have := hi hvp
+    unfold PostG; rw [this.cause]; exact this
+  · intro st hi _ hvp
+    have hinv : Inv stops st := hi (by simpa [St.genText] using hvp)
+    have := post_finish_flush hinv .length .limit
+    unfold PostG; rw [finish_cause]
+    exact ⟨rfl, this.1, this.2, finish_pending _ _ _⟩
+  · intro st hi _ hvp
+    have hinv : Inv stops st := hi (by simpa [St.genText] using hvp)
+    have hinv' : Inv stops { st with numPredicted := st.numPredicted + 1 } :=
+      ⟨hinv.done, hinv.cause, hinv.split, hinv.outValid, hinv.noOcc, hinv.held⟩
+    have := post_finish_flush hinv' .stop .eos
+    unfold PostG; rw [finish_cause]
+    exact ⟨rfl, this.1, this.2, finish_pending _ _ _⟩
+  · intro st p hi _ hd hvp
+    rw [stepPiece_genText] at hvp
+    exact (step_mainG pinned hne p (hi hvp.left) hvp).1 hd
+  · intro st p hi _ hd hvp
+    rw [stepPiece_genText] at hvp
+    exact (step_mainG pinned hne p (hi hvp.left) hvp).2 hd
+
 end OllamaVerif.Stop
